@@ -54,6 +54,7 @@ class GenCtx:
         self.hashseeds: List[int] = [0]
         self.twins: Dict[str, List[str]] = {}
         self.deep: List[str] = []
+        self.depth_probes: List[str] = []  # calibrated pair: fails alone / completes alone
 
 
 def enumerate_paths(adj: Dict[str, List[int]], entry: int, max_len: int, cap: int) -> List[List[str]]:
